@@ -240,6 +240,26 @@ func repr(r *rand.Rand, v any, o ReprOpts, t *ReprTrace, depth int) any {
 // commonType returns a Go type that can hold every element exactly, or nil.
 // model holds the model-form elements, els the already chosen representations.
 func commonType(r *rand.Rand, model []any, els []any, o ReprOpts) (reflect.Type, []any) {
+	t, vals := commonType0(r, model, els, o)
+	if t != nil && len(vals) > 0 && t.Kind() != reflect.Interface && r.IntN(6) == 0 {
+		// the same container with POINTER elements ([]*int, []*string, map[string]*float64 ...): every element behind its own,
+		// distinct pointer - equal values at different addresses
+		pt := reflect.PointerTo(t)
+		out := make([]any, len(vals))
+		for i, v := range vals {
+			if v == nil {
+				return t, vals
+			}
+			p := reflect.New(t)
+			p.Elem().Set(reflect.ValueOf(v))
+			out[i] = p.Interface()
+		}
+		return pt, out
+	}
+	return t, vals
+}
+
+func commonType0(r *rand.Rand, model []any, els []any, o ReprOpts) (reflect.Type, []any) {
 	if len(model) == 0 {
 		// any element type works for an empty container
 		return Pick(r, []reflect.Type{reflect.TypeOf(0), reflect.TypeOf(""), reflect.TypeOf(0.0), anyType, reflect.TypeOf(map[string]any{}), reflect.TypeOf([]any{})}), nil
